@@ -75,7 +75,7 @@ Hypothesis prec_ge_3 : (3 <= prec)%Z.
 
 Lemma rnd_inv_M_pos (x : R) : / M <= x -> 0 < rnd x.
 Proof.
-  intros L. assert (E : / M = bpow radix2 (- emax)) by (unfold GuardLemmas.M; now rewrite bpow_opp).
+  intros L. assert (E : / M = bpow radix2 (- emax)) by (unfold GuardSpec.M; now rewrite bpow_opp).
   apply Rlt_le_trans with (bpow radix2 (- emax)). apply bpow_gt_0.
   rewrite <- (round_generic radix2 (FLT_exp (3 - emax - prec) prec) ZnearestE (bpow radix2 (- emax))).
   - apply rnd_le; trivial. lra.
@@ -218,8 +218,8 @@ Proof.
     apply Rmult_le_pos; trivial. left. now apply Rinv_0_lt_compat.
   - destruct (finite_pos_struct _ _ d Fd Pd) as (m & e & H & ->).
     destruct p as [|[|]| |]; try discriminate.
-    + unfold GuardLemmas.ext in Pp. lra.
-    + split. reflexivity. unfold GuardLemmas.ext. simpl. lra.
+    + unfold GuardSpec.ext in Pp. lra.
+    + split. reflexivity. unfold GuardSpec.ext. simpl. lra.
 Qed.
 
 Lemma one_plus_nn (q : float) : nn q -> fgt (fadd one q) zero = true.
@@ -233,7 +233,7 @@ Proof.
     { apply (clamp_ge1 prec emax Hp Hpe). apply rnd_ge1. lra. }
     lra.
   - destruct q as [|[|]| |]; try discriminate.
-    + unfold GuardLemmas.ext in Pq. lra.
+    + unfold GuardSpec.ext in Pq. lra.
     + destruct (one_struct prec emax Hp Hpe) as (m1 & e1 & H1 & ->). reflexivity.
 Qed.
 
@@ -306,6 +306,16 @@ Proof.
   apply andb_true_intro; split; apply Pert_term_pos; trivial; rewrite Vr; apply rnd_le; trivial; lra.
 Qed.
 
+Lemma is_nan_true_inv (x : float) : is_nan x = true -> x = B754_nan.
+Proof. destruct x; try discriminate; reflexivity. Qed.
+
+(* NaN / non-NaN split (enough when no classification predicate remains in the goal) *)
+Ltac nsplit x :=
+  let N := fresh "N" x in
+  destruct (is_nan x) eqn:N; [apply is_nan_true_inv in N; subst x | ].
+Ltac rw_nonnan :=
+  repeat match goal with H : is_nan ?x = false |- context [is_nan ?x] => rewrite H end.
+
 Ltac pert_finish P :=
   cbn; try exact I; try tauto; try (exfalso; lra);
   try (exfalso; apply P; repeat split; lra); auto 12.
@@ -318,7 +328,7 @@ Proof.
   destruct (negb (v_fin prec emax (fsub max min)) || v_pinf prec emax shape) eqn:EU.
   - (* Unspecified region: only the documented errors are judged *)
     destruct (fgt (Pert_v min max shape mode) zero && fgt (Pert_w min max shape mode) zero);
-    fsplit min; fsplit max; fsplit mode; fsplit shape; guard_auto.
+    nsplit min; nsplit max; nsplit mode; nsplit shape; to_R; rw_nonnan; add_M; rcases; finish.
   - apply orb_false_elim in EU. destruct EU as (EU1 & EU2).
     apply negb_false_iff in EU1. unfold v_fin in EU1.
     destruct (Bminus_finite_inv _ _ EU1) as (Fmax & Fmin).
